@@ -28,6 +28,8 @@ type CaseC19 struct {
 	Byte   byte                     `json:"byte"`
 	Stale  bool                     `json:"stale,omitempty"` // the file exists before the write, with longer content
 	GobMap map[string]interface{}   `json:"gob_map,omitempty"`
+	Huge   int                      `json:"huge,omitempty"`    // > 0: document HugeAt gets a string of that many bytes (a document longer than 64 KiB)
+	HugeAt int                      `json:"huge_at,omitempty"` // expanded at check time
 }
 
 func init() { register("C19", checkC19) }
@@ -59,6 +61,10 @@ func genC19(t *rapid.T) CaseC19 {
 	c.Byte = rapid.SampledFrom([]byte{'<', '>', '{', '}', '"', '\\', ' ', 0, 0xff, 'x', '/', '&', '[', 0, 1, 0x0b, 0x1f}).Draw(t, "byte")
 	g := VGen{Keys: xmlKeyNames, Nulls: false, StringGen: func(t *rapid.T, l string) string { return genJSONString(t) }}
 	c.GobMap = g.Map(t, 3)
+	if rapid.IntRange(0, 39).Draw(t, "huge") == 17 {
+		c.Huge = rapid.SampledFrom([]int{65536, 70000, 140000}).Draw(t, "hugesize")
+		c.HugeAt = rapid.IntRange(0, n-1).Draw(t, "hugeat")
+	}
 	return c
 }
 
@@ -127,6 +133,29 @@ func checkC19(c CaseC19, info *Info) *Failure {
 	}
 	defer os.RemoveAll(dir)
 	fn := filepath.Join(dir, "maps."+c.Kind)
+	if c.Huge > 0 {
+		// one document is longer than 64 KiB (and so is the gob/copy subject)
+		pad := strings.Repeat("p", c.Huge)
+		if c.Kind == "json" && len(c.JDocs) > 0 {
+			docs := append([]map[string]interface{}(nil), c.JDocs...)
+			d := copyMap(docs[c.HugeAt%len(docs)])
+			d["pad"] = pad
+			docs[c.HugeAt%len(docs)] = d
+			c.JDocs = docs
+		} else if len(c.XDocs) > 0 {
+			docs := append([]*XElem(nil), c.XDocs...)
+			d := *docs[c.HugeAt%len(docs)]
+			d.Attrs = append(append([]XAttr(nil), d.Attrs...), XAttr{Local: "pad", Value: pad})
+			docs[c.HugeAt%len(docs)] = &d
+			c.XDocs = docs
+		}
+		if c.GobMap != nil {
+			g := copyMap(c.GobMap)
+			g["pad"] = pad
+			c.GobMap = g
+		}
+		info.Class("a document longer than 64 KiB")
+	}
 	info.Class("kind:" + c.Kind)
 	info.Class("damage:" + c.Damage)
 
